@@ -45,4 +45,5 @@ func RunAll(w *load.World, c *core.Collector) {
 	BitPack(w, c)
 	Coverage(w, c)
 	Asm(w, c)
+	Borrow(w, c)
 }
